@@ -18,6 +18,13 @@ P = {
  "C12": ("runtime monitor evaluating defining inequalities with model powers, num-bigint gcd, and an own interval-arithmetic log2 enclosure",
          "Runtime monitoring of gcd/gcd_ext (Bezout identity), sqrt/cbrt/nth_root (+_rem), ilog, remove and log2_bounds (big integers, rationals, floats, every u8/u16 exhaustively, random wider primitives and f32/f64 patterns); inputs built by reverse Euclid (maximal Lehmer steps, oversized quotients), perfect powers +-1, base^e +-1; log2 bounds decided by a 96..512-bit outward-rounded enclosure (undecided cases are counted inconclusive).",
          "Trusts num-bigint gcd/pow and the harness' own interval ln (self-tested against f64::ln each run; validated against mpmath during development).", "DESIGN.md §4 C12"),
+
+ "C07": ("differential runtime monitor: num-bigint radix/byte reference, grammar-based sentence generator with mutations, pad_integral reference layout validated against format! on primitives",
+         "Runtime monitoring of printing in all 35 radices, parse round trips of decorated strict-grammar sentences, rejection of mutated sentences, no-panic on arbitrary strings, 180 literal format specs x run-time widths against a reference layout, two's-complement byte import/export and bit-chunk round trips, with value sizes on both sides of the per-word / 16-word / 256-word converter thresholds.",
+         "Trusts num-bigint to_str_radix/parse_bytes/from_signed_bytes_le and Rust's primitive formatting (reference layout is self-tested against it each run).", "DESIGN.md §4 C07"),
+ "C13": ("differential runtime monitor: num-bigint mod_floor/modpow/gcd reference for every ring operation and the Reducer facade",
+         "Runtime monitoring of reduce, + - * neg dbl sqr pow inv / (all ownership forms) over moduli 1, 2^k, one word (shift 0 and > 0), two words, many words, with operands of both signs up to 3x the modulus length, crafted non-invertible elements, multi-word exponents, mixing of ConstDivisor instances (must panic) and the num_modular::Reducer facade.",
+         "Trusts num-bigint modular arithmetic.", "DESIGN.md §4 C13"),
 }
 NOT_YET = "monitor not built yet in this round (design in DESIGN.md §4); no claim is made until its check exists and is silent on the unchanged tree"
 
